@@ -4,6 +4,7 @@ import (
 	"errors"
 	"math"
 	"reflect"
+	"sync"
 
 	structform "github.com/elastic/go-structform"
 	"github.com/elastic/go-structform/gotype"
@@ -339,8 +340,19 @@ func (s *uStateList) OnArrayFinished(ctx gotype.UnfoldCtx) error {
 
 // UnfoldOptions returns the option registering the user unfolders above.
 func UnfoldOptions() gotype.UnfoldOption {
-	return gotype.Unfolders(append([]interface{}{UnfoldUNum, UnfoldUStr, UnfoldUProc, UnfoldUState}, upUnfolders...)...)
+	// ONE option value for the whole process, as an application would keep it
+	// in a package variable: whatever the option value holds is shared by all
+	// unfolders created from it
+	unfoldOptsOnce.Do(func() {
+		unfoldOpts = gotype.Unfolders(append([]interface{}{UnfoldUNum, UnfoldUStr, UnfoldUProc, UnfoldUState}, upUnfolders...)...)
+	})
+	return unfoldOpts
 }
+
+var (
+	unfoldOptsOnce sync.Once
+	unfoldOpts     gotype.UnfoldOption
+)
 
 var (
 	uNumType   = reflect.TypeOf(UNum{})
